@@ -422,7 +422,9 @@ package setec
 //@   ensures [C15 updater.unlocked] !u.mu
 //@ func NewUpdater(ctx, s, name, newValue) (u, err)
 //@   requires storeInv(s) && !s.active.Mutex && ctx != nil && s.client != nil && newValue != nil
-//@   interference at newValue writers (*client/setec.Store).applyUpdates assume storeInv(s) && !s.active.Mutex && chlen(w.ready) >= old(chlen(w.ready)) && chlen(w.ready) <= 1 && net == old(net)
+//@   interference at newValue writers (*client/setec.Store).applyUpdates assume storeInv(s) && !s.active.Mutex && net == old(net) && has(s.active.w, name) == old(has(s.active.w, name)) && s.active.w[name] == old(s.active.w[name]) &&
+//@        (forall c ref :: isSlot(c) ==> (chlen(c) >= old(chlen(c)) && (old(chlen(c)) <= 1 ==> chlen(c) <= 1)))
+//@   at call newValue: assert [C15 newupdater.watcher-registered-before-the-value-is-built] has(s.active.w, name) && len(s.active.w[name]) == old(len(s.active.w[name])) + 1
 //@   ensures [C15 newupdater.ready-for-get] err == nil ==> (u != nil && !u.mu && u.newValue != nil && u.logf != nil && u.w.Secret != nil && u.w.ready != nil && isSlot(u.w.ready) && chcap(u.w.ready) == 1 && chlen(u.w.ready) >= 0 && chlen(u.w.ready) <= 1)
 //@   ensures [C15 newupdater.initial-value-built-once] err == nil ==> (builderCalls == old(builderCalls) + 1 && lastBuilderErr == nil && lastBuiltFrom == lastHandleValue)
 //@   ensures [C15 newupdater.consumes-no-signal] slotRecvs == old(slotRecvs)
